@@ -41,7 +41,7 @@ Inductive fbody :=
 | BVoid (recv method : name) (args : list aexp)                            (* recv->method(args); *)
 | BRet (w : rwrap) (recv method : name) (args : list aexp)                 (* return w(recv->method(args)); *)
 | BOrDefault (has : name) (dflt : nat) (get : name)                      (* if (!has()) { return p_dflt; } return get(); *)
-| BSelect (scope : aexp)                                                     (* currentMockSupport = &mock(scope, &failureReporterForC); return &gMockSupport; *)
+| BSelect (scope : aexp) (reporter : name)                                   (* currentMockSupport = &mock(scope, reporter); return &gMockSupport; *)
 | BInstallCmp | BInstallCopy | BRemoveAll                                    (* the three adaptor-owning functions, matched verbatim *)
 | BOther (text : name).
 Record fdef := { f_name : name; f_sig : csig; f_body : fbody }.
